@@ -19,7 +19,7 @@ theorem calls_parse : callsParseDigest = "45c96cec32e9c9b8" := rfl
 
 theorem ext_cue : extCue = [".CompileString", ".ConstraintType", ".IncompleteKind", ".Kind", ".LabelType", ".List", ".Lock", ".LookupPath", ".Next", ".Optional", ".Selector", ".Unlock", ".Unquoted", "cuelang.org/go/cue.All", "cuelang.org/go/cue.AnyIndex", "cuelang.org/go/cue.BoolKind", "cuelang.org/go/cue.BottomKind", "cuelang.org/go/cue.BytesKind", "cuelang.org/go/cue.FloatKind", "cuelang.org/go/cue.Hid", "cuelang.org/go/cue.IntKind", "cuelang.org/go/cue.Iterator", "cuelang.org/go/cue.Kind", "cuelang.org/go/cue.ListKind", "cuelang.org/go/cue.MakePath", "cuelang.org/go/cue.NumberKind", "cuelang.org/go/cue.PatternConstraint", "cuelang.org/go/cue.Str", "cuelang.org/go/cue.StringKind", "cuelang.org/go/cue.StringLabel", "cuelang.org/go/cue.StructKind", "cuelang.org/go/cue.TopKind", "cuelang.org/go/cue.Value", "cuelang.org/go/cue/ast.IsValidIdent", "cuelang.org/go/cue/cuecontext.New", "encoding/json.Marshal", "fmt.Errorf", "fmt.Sprint", "fmt.Sprintf", "github.com/google/uuid.New", "sort.Strings", "strings.HasPrefix", "strings.HasSuffix", "strings.Join", "strings.ReplaceAll", "strings.TrimPrefix", "strings.TrimSuffix", "unicode.IsLower", "unicode.IsUpper"] := rfl
 
-theorem calls_cue : callsCueDigest = "194f0778738f30eb" := rfl
+theorem calls_cue : callsCueDigest = "d44e3b9eaf64d248" := rfl
 
 theorem ext_ana : extAna = ["reflect.DeepEqual", "sort.Strings", "strings.Join"] := rfl
 
